@@ -1,6 +1,7 @@
 package kvql
 
 import (
+	"bytes"
 	"fmt"
 	"os"
 )
@@ -22,6 +23,9 @@ type ExecuteCtx struct {
 	FieldCaches         map[string]any
 	FieldChunkKeyCaches map[string][]any
 	FieldChunkCaches    map[string][]any
+	// Key of the row the FieldCaches results belong to
+	rowKey   []byte
+	rowBound bool
 }
 
 func NewExecuteCtx() *ExecuteCtx {
@@ -32,6 +36,20 @@ func NewExecuteCtx() *ExecuteCtx {
 		FieldChunkKeyCaches: make(map[string][]any),
 		FieldChunkCaches:    make(map[string][]any),
 	}
+}
+
+// BindRow ties the per row field results to the row identified by key,
+// results that were cached for another row are dropped.
+func (c *ExecuteCtx) BindRow(key []byte) {
+	if !c.EnableCache {
+		return
+	}
+	if c.rowBound && bytes.Equal(c.rowKey, key) {
+		return
+	}
+	clear(c.FieldCaches)
+	c.rowKey = append(c.rowKey[:0], key...)
+	c.rowBound = true
 }
 
 func (c *ExecuteCtx) GetFieldResult(name string) (any, bool) {
@@ -108,6 +126,7 @@ func (c *ExecuteCtx) Clear() {
 	clear(c.FieldCaches)
 	clear(c.FieldChunkCaches)
 	clear(c.FieldChunkKeyCaches)
+	c.rowBound = false
 }
 
 func (c *ExecuteCtx) AdjustChunkCache(chooseIdxes []int) {
